@@ -408,6 +408,9 @@ def check_surroundings(ctx):
     for d in D.get_drivers(ctx.repo):
         if d.kind == 'pack':
             D.check_handlers(ctx, 'R9-encode-failure-surfaces', d)
+    # ... and building the PacketError does not fail on the message of the original error
+    from .c12 import check_packet_error_class
+    check_packet_error_class(ctx)
     from .c08 import check_ref
     check_ref(ctx, ctx.repo.cls('Ref'))
     from .c15 import check_hash_covers_generated_code
